@@ -55,11 +55,24 @@ def judge(src):
     return v, r
 
 
+# layouts in which a displayed range ends with its line or falls on an empty line: a bare `return` (of a helper that declares
+# a return type, or not) as the last thing on its line, an operator whose operands are separated by a blank line with the
+# continuation in column 0, a prohibited assignment whose value is prohibited too
+LAYOUT = [
+    "from nada_dsl import *\n\ndef clamp(a: int) -> int:\n    b = a + 1\n    return\n\ndef nada_main():\n    p = Party(name=\"P\")\n"
+    "    x = SecretInteger(Input(name=\"x\", party=p))\n    y = (x +\n\n\"one\")\n    return [Output(x, \"o\", p)]\n",
+    "from nada_dsl import *\n\ndef h(a: SecretInteger) -> SecretInteger:\n    for i in range(2):\n        return\n    return a\n\n"
+    "def nada_main():\n    p = Party(name=\"P\")\n    x = SecretInteger(Input(name=\"x\", party=p))\n    z = (x\n\n*\n\nx)\n    w = (1 <\n\n'a')\n    return",
+    "from nada_dsl import *\n\ndef nada_main():\n    p = Party(name=\"P\")\n    x = SecretInteger(Input(name=\"x\", party=p))\n"
+    "    (q, r) = (lambda v: v, eval(\"x\"))\n    a = b = p.name\n    return [Output(x, \"o\", p)]\n",
+]
+
+
 def run(res, tier):
     n = 200 if tier == "quick" else 6000
     rng = R.make("C17")
     from .c16 import CORPUS
-    sources = [("corpus", s) for s in CORPUS]
+    sources = [("corpus", s) for s in CORPUS] + [("layout", s) for s in LAYOUT]
     while len(sources) < n + len(CORPUS):
         sources.append(pysrc.generate(rng))
     evals, nontrivial, kinds = 0, set(), {}
